@@ -165,7 +165,26 @@ def build_data(shape: dict, parity: int = 0, number_format=None):
                           **({"number_format": s["nf"]} if s.get("nf") else {}))
         return cd
     cd = XyChartData(**nf) if kind == "xy" else BubbleChartData(**nf)
+    _add_xy_series(cd, shape, 0, parity)
+    return cd
+
+
+def extend_data(cd, shape: dict, start: int, parity: int = 0):
+    """Add the series of `shape` from index `start` on to an existing chart-data object (same values build_data would give)."""
+    if shape["kind"] == "cat":
+        for i, s in enumerate(shape["series"]):
+            if i >= start:
+                cd.add_series(str_of(s["name"]), [val_of(v, parity + i + j) for j, v in enumerate(s["vals"])],
+                              **({"number_format": s["nf"]} if s.get("nf") else {}))
+    else:
+        _add_xy_series(cd, shape, start, parity)
+
+
+def _add_xy_series(cd, shape: dict, start: int, parity: int):
+    kind = shape["kind"]
     for i, s in enumerate(shape["series"]):
+        if i < start:
+            continue
         ser = cd.add_series(str_of(s["name"]), **({"number_format": s["nf"]} if s.get("nf") else {}))
         for j, y in enumerate(s["vals"]):
             x = val_of(s["xs"][j], parity + j)
@@ -173,7 +192,6 @@ def build_data(shape: dict, parity: int = 0, number_format=None):
                 ser.add_data_point(x, val_of(y, parity + i + j))
             else:
                 ser.add_data_point(x, val_of(y, parity + i + j), val_of(s["sizes"][j], parity + i))
-    return cd
 
 
 # ------------------------------------------------------------------------------------------------ own .xlsx reader
@@ -423,10 +441,19 @@ def sheet_chunk(jobs: list) -> list:
             continue
         try:
             slide = prs.slides.add_slide(lay)
-            first = PRE[shape["kind"]] if site == "ReplaceData" else shape
-            gf = slide.shapes.add_chart(types[tname][0], Emu(0), Emu(0), Emu(3000000), Emu(2000000), build_data(first, parity))
-            if site == "ReplaceData":
-                gf.chart.replace_data(build_data(shape, parity))
+            if site == "ReuseData":
+                # ONE chart-data object: a chart is made from its first series, the object is then extended to the whole shape and
+                # handed to replace_data - nothing the first use computed may be remembered
+                part = dict(shape, series=shape["series"][:1])
+                cd = build_data(part, parity)
+                gf = slide.shapes.add_chart(types[tname][0], Emu(0), Emu(0), Emu(3000000), Emu(2000000), cd)
+                extend_data(cd, shape, 1, parity)
+                gf.chart.replace_data(cd)
+            else:
+                first = PRE[shape["kind"]] if site == "ReplaceData" else shape
+                gf = slide.shapes.add_chart(types[tname][0], Emu(0), Emu(0), Emu(3000000), Emu(2000000), build_data(first, parity))
+                if site == "ReplaceData":
+                    gf.chart.replace_data(build_data(shape, parity))
             live.append(len(prs.slides) - 1)
         except Exception as e:      # recorded, judged by the caller (an exception is not a workbook)
             rec["raised"] = "%s: %s" % (type(e).__name__, str(e)[:120])
